@@ -36,7 +36,7 @@ EXTRA = {
         "the identity disjunct `a is b` of _equal_or_same is not modelled (for the scalar kinds above identity "
         "implies == or both-missing)",
     ],
-    "explanation": "equals_iff / equals_iff_labelled / equals_refl / equals_symm / origin_orientation_ignored / "
+    "explanation": "equals_iff / equals_iff_labelled / equals_refl / equals_symm / equals_trans (with trans_needs_rect) / origin_orientation_ignored / "
                    "non_table_false / row_count_matters (Props/C14.lean) hold for tables of every size; the model is "
                    "tied to proxy.py by differential execution of Table.equals and _equal_or_same every run.",
     "trusted_base": ["pandas DataFrame.itertuples() / Series.tolist() as the observation of table contents"],
